@@ -31,8 +31,8 @@ def conv_term(c, payload):
 
 def val_term(j):
     k = j[0]
-    if k == "PNone":
-        return C("PNone")
+    if k in ("PNone", "PUndefined"):
+        return C(k)
     if k in ("PBool", "PNpBool"):
         return C(k, bool(j[1]))
     if k in ("PInt", "PIntSub", "PCallable", "PModule", "POther", "PType"):
@@ -186,6 +186,7 @@ ATOMS = [
     ["PType", 100], ["PType", 101], ["PType", 102], ["PType", 3], ["PType", 110],
     ["PCallable", 0], ["PCallable", 1], ["PModule", 0],
     ["POther", -1], ["POther", -2], ["POther", -3], ["POther", 1],
+    ["PUndefined"],          # traits.api.Undefined: setattr_trait stores it without validation (F22)
 ]
 
 
@@ -224,6 +225,12 @@ def variants(d):
         return [d + ["mixed"]]
     if d[0] == "DInstance" and len(d) == 4 and d[1] in (100, 101):
         return [d + ["name"]]
+    if d == ["DStr"]:
+        return [["DStr", "Title"]]
+    if d[0] == "DString" and len(d) == 4 and d[1] == 0 and d[2] == MAXSIZE and d[3] is not None:
+        return [d + ["Regex"]]
+    if d[0] == "DAdapt" and len(d) == 5 and d[2] == 1:
+        return [d + ["Supports"]]
     return []
 
 
